@@ -2520,7 +2520,23 @@ impl IndexedChangeSet {
 				return Ok(())
 			},
 		};
-		for change in self.changes.iter() {
+		// Root changes are planned before the node changes, except the root of a tree inserted
+		// under a key whose current tree is dereferenced by this same change set ("replace the
+		// tree under the key"): the dereference has to find, and remove, the root it was queued
+		// for, so that `Set` is planned after the node changes.
+		let dereferenced: HashSet<&Key> = self
+			.node_changes
+			.iter()
+			.filter_map(|change| match change {
+				NodeChange::DereferenceChildren(_, hash, _) => Some(hash),
+				_ => None,
+			})
+			.collect();
+		let postponed = |change: &Operation<Key, RcValue>| match change {
+			Operation::Set(k, _) => dereferenced.contains(k),
+			_ => false,
+		};
+		for change in self.changes.iter().filter(|change| !postponed(change)) {
 			if let PlanOutcome::NeedReindex = column.write_plan(change, writer)? {
 				// Reindex has triggered another reindex.
 				*reindex = true;
@@ -2568,6 +2584,12 @@ impl IndexedChangeSet {
 					// TODO: Remove TreeReader from Db.
 				},
 			}
+		}
+		for change in self.changes.iter().filter(|change| postponed(change)) {
+			if let PlanOutcome::NeedReindex = column.write_plan(change, writer)? {
+				*reindex = true;
+			}
+			*ops += 1;
 		}
 		Ok(())
 	}
